@@ -509,6 +509,14 @@ m('range-lt-treated-inclusive', ['C06'], SO, """				r.Max = rhs.GetDeepCopy()
 m('range-direction-confused', ['C06'], SO, """		if (dir == DirRight && op == expression.LessThanOrEqual) ||
 			(dir == DirLeft && op == expression.GreaterThanOrEqual) {""", """		if (dir == DirRight && op == expression.LessThanOrEqual) ||
 			(dir == DirRight && op == expression.GreaterThanOrEqual) {""", ['C06-R4 [Range.Update:GreaterThanOrEqual:DirRight]', 'C06-R4 [Range.Update:GreaterThanOrEqual:DirLeft]'])
+m('undo-stops-after-latest-record', ['C02', 'C20'], LR, """			lsn = logRecord.PrevLSN
+""", """			lsn = common.InvalidLSN
+""", ['C02-R5 [Undo:chain-advances-to-PrevLSN]'])
+m('redo-lsnmapping-ignores-offset-in-chunk', ['C02'], LR, """			logRecov.lsnMapping[logRecord.Lsn] = int(fileOffset + bufferOffset)
+""", """			logRecov.lsnMapping[logRecord.Lsn] = int(fileOffset)
+""", ['C02-R5 [Redo:lsnMapping-is-record-start'])
+m('redo-activetxn-only-at-begin', ['C02'], LR, """			logRecov.activeTxn[logRecord.TxnID] = logRecord.Lsn
+			logRecov.lsnMapping""", """			logRecov.lsnMapping""", ['C02-R5 [Redo:activeTxn-registered-for-every-record]'])
 # drop the one that needs a helper that does not exist
 M = [x for x in M if x['id'] != 'insert-executor-unlocks-early']
 os.chdir(os.path.dirname(os.path.abspath(__file__)) + '/..')
